@@ -61,9 +61,14 @@ class _R:
         self.m = 0
         self.c = 0
         self.i = 0
+        self.r = 0
 
 
 BARE_RETURN = [False]  # render option: `return` without a value (the function then returns None)
+RETURN_MASK = [None]  # render option: bit j set -> the j-th return (in source order) is bare
+PAD = [None]  # render option: a statement that lowers to nothing, inserted before every statement
+SHARED_ITERS = [False]  # render option: loops run over named iterators created before, drained after
+PAD_STMTS = {"ann": "zq: int", "glob": "global gq", "pass": "pass", "const": "'doc'"}
 
 
 def render(b, ind, r, read_target=False):
@@ -71,13 +76,19 @@ def render(b, ind, r, read_target=False):
     pad = "    " * ind
     for s in b:
         k = s[0]
+        if PAD[0]:
+            out.append(pad + PAD_STMTS[PAD[0]])
         if k == "mark":
             out.append("%smark(%d)" % (pad, r.m))
             r.m += 1
         elif k in ("break", "continue"):
             out.append(pad + k)
         elif k == "return":
-            if BARE_RETURN[0]:
+            bare = BARE_RETURN[0]
+            if RETURN_MASK[0] is not None:
+                bare = bool(RETURN_MASK[0] >> r.r & 1)
+                r.r += 1
+            if bare:
                 out.append("%sreturn" % pad)
             else:
                 out.append("%sreturn %d" % (pad, 100 + r.m))
@@ -98,7 +109,10 @@ def render(b, ind, r, read_target=False):
                 out += render(s[2], ind + 1, r, read_target)
         elif k == "for":
             v = "v%d" % r.i
-            out.append("%sfor %s in It(%d):" % (pad, v, r.i))
+            if SHARED_ITERS[0]:
+                out.append("%sfor %s in it%d:" % (pad, v, r.i))
+            else:
+                out.append("%sfor %s in It(%d):" % (pad, v, r.i))
             r.i += 1
             if read_target:
                 out.append("%s    log('t', %s)" % (pad, v))
@@ -235,6 +249,70 @@ def bare_returns(size, depth=3):
                 finally:
                     BARE_RETURN[0] = False
                 yield ("C05:%s+barereturn:%s" % (pl, sk_str(b)), src, r.c, r.i)
+
+
+def resumed(size, depth=3):
+    """skeletons with a for loop and an interrupt, the loops running over NAMED iterator objects
+    that are created before the skeleton and read to the end after it: an iterator must not be
+    advanced, closed or replaced by the lowering of break/return"""
+    for pl in ("module", "function"):
+        in_loop, in_func = PLACEMENTS[pl]
+        for b in blocks(size, depth, in_loop, in_func):
+            if not (has_kind(b, ("for",)) and has_kind(b, ("break", "return", "continue"))):
+                continue
+            SHARED_ITERS[0] = True
+            try:
+                src, r = program(b, pl)
+            finally:
+                SHARED_ITERS[0] = False
+            head = "".join("it%d = It(%d)\n" % (j, j) for j in range(r.i))
+            tail = "".join("log('rest', %d, [q for q in it%d])\n" % (j, j) for j in range(r.i))
+            assert src.endswith("mark(99)\n")
+            yield ("C05:%s+resumed:%s" % (pl, sk_str(b)), head + src[: -len("mark(99)\n")] + tail + "mark(99)\n", r.c, r.i)
+
+
+def count_kind(b, kind):
+    n = 0
+    for s in b:
+        if s[0] == kind:
+            n += 1
+        elif s[0] in ("if", "while", "for"):
+            n += count_kind(s[1], kind) + count_kind(s[2], kind)
+    return n
+
+
+def mixed_returns(size, depth=3):
+    """function-level skeletons with at least two returns: every proper, non-empty subset of the
+    returns rendered bare (a bare and a valued return in one function)"""
+    for pl in ("function", "method"):
+        in_loop, in_func = PLACEMENTS[pl]
+        for b in blocks(size, depth, in_loop, in_func):
+            n = count_kind(b, "return")
+            if n < 2:
+                continue
+            for mask in range(1, 2**n - 1):
+                RETURN_MASK[0] = mask
+                try:
+                    src, r = program(b, pl)
+                finally:
+                    RETURN_MASK[0] = None
+                yield ("C05:%s+returnmask%d:%s" % (pl, mask, sk_str(b)), src, r.c, r.i)
+
+
+def padded(size, depth=3, placements=("module", "function", "class")):
+    """every skeleton with a statement that lowers to NOTHING (annotation without value, global
+    declaration) or to a constant (pass, a constant expression) before every statement: a block of
+    two source statements is then a single lowered expression"""
+    for kind in PAD_STMTS:
+        for pl in placements:
+            in_loop, in_func = PLACEMENTS[pl]
+            for b in blocks(size, depth, in_loop, in_func):
+                PAD[0] = kind
+                try:
+                    src, r = program(b, pl)
+                finally:
+                    PAD[0] = None
+                yield ("C05:%s+pad_%s:%s" % (pl, kind, sk_str(b)), src, r.c, r.i)
 
 
 EXTRA = {
